@@ -419,6 +419,7 @@ where
 
                 // Parse the TSIG RR.
                 let message_without_tsig = peek_rr.message_to_rr();
+                let tsig_raw_ttl = peek_rr.raw_ttl();
                 let read_rr = match peek_rr.parse() {
                     Ok(read_rr) => read_rr,
                     Err(_) => {
@@ -426,6 +427,14 @@ where
                         return;
                     }
                 };
+                if tsig_raw_ttl != 0 {
+                    // RFC 8945 § 4.2 requires the TTL field to be zero.
+                    // (ReadTsigRr::try_from checks the TTL too, but only
+                    // after it has been converted to a Ttl, which reads
+                    // a field with the most significant bit set as 0.)
+                    context.response.set_rcode(Rcode::FORMERR);
+                    return;
+                }
                 let tsig_rr = match ReadTsigRr::try_from(read_rr) {
                     Ok(tsig_rr) => tsig_rr,
                     Err(tsig::FromReadRrError::FormErr) => {
